@@ -7,4 +7,5 @@ CONSTANTS
   FT <- FT1
   Dev = "nanpass"
 INVARIANT ArgsOK
+VIEW view
 CHECK_DEADLOCK FALSE
